@@ -44,6 +44,11 @@ CHECKS = {
     technique="TLA+ definition of JA4 with wire rendering of ClientHello (Ja4.tla); TLC checks permutation/GREASE invariance laws and generates hello bytes with the specified JA4 parts; replayed into parse_tls_client_hello + generate_ja4(_original) and the packet-level analyzer",
     text="The JA4 parts (a, b, c sorted and original, version selection, SNI flag, saturating counts, ALPN characters, GREASE removal, signature algorithms in wire order, empty-list rule) are defined in TLA+ over an abstract ClientHello that the same module renders to record bytes; TLC proves on the definition that the sorted parts are invariant under all 576 permutation pairs and GREASE insertions while the original parts follow the bytes, and every enumerated hello (version table, presence matrix, permutations, GREASE placements, sizes around 99, session-id/compression/unknown-extension variants) must be reported by the real code with exactly those strings, both through the parser API and through a one-segment connection.",
     note="Trusted: TLC, Ja4.tla, SHA-256 by Python hashlib on the spec's strings. ALPN restricted to alphanumeric first/last characters; extension bodies of known types are well-formed."),
+ "C08": dict(
+    level="model_checking", design="§5 C08",
+    technique="TLA+ reassembly machine on lengths (TlsReasm.tla) model-checked by TLC over all ordered partitions (MC_C08); recorded outcomes of real ClientHello records cut at every position, through the reader API and the packet-level analyzer, trace-validated by TLC (TV_C08)",
+    text="TLC explores every ordered partition of abstract client streams and checks exactly-once, on-the-completing-segment, nothing-before and nothing-for-other-records; real ClientHello records from the JA4 generator are then cut at every byte position (all 2-partitions, all 3-partitions of the shortest, seeded k-partitions with one-byte pieces, with tails and neighbouring records, two connections interleaved on one flow table) and every connection's per-segment outcome, including equality with the one-shot result, is validated by TLC against the machine.",
+    note="Trusted: TLC, TlsReasm.tla, the one-shot parse as reference for `identical` (judged by C04). Per-worker path is exercised by C10."),
 }
 
 NOT_YET = {}
